@@ -234,6 +234,37 @@ theorem usingPrinted_eq (m : Mods) : usingPrinted m = !(modList m).isEmpty := by
   | nil =>
     cases l <;> cases p <;> cases v <;> simp [usingPrinted, convMods, addKw, hasId]
 
+/-- the ids of the printed `using` block: those of the block, and every keyword modifier -/
+theorem hasId_addKw (k' : Bytes) (on : Bool) (k : Bytes) (orig l : List (Bytes × Exp)) :
+    hasId k' (addKw on k orig l) = (hasId k' l || (on && !hasId k orig && k == k')) := by
+  unfold addKw
+  split
+  · rename_i h
+    simp only [Bool.and_eq_true, Bool.not_eq_true'] at h
+    rw [hasId_append, hasId_cons, hasId_nil, h.1, h.2]; simp
+  · rename_i h
+    cases on <;> cases hh : hasId k orig <;> simp_all
+
+theorem or_absorb (X on H e : Bool) (h : e = true → H = X) :
+    (X || (on && !H && e)) = (X || (on && e)) := by
+  cases e with
+  | false => simp
+  | true => rw [h rfl]; cases X <;> cases on <;> rfl
+
+theorem or3_congr (X A B C A' B' C' : Bool) (ha : (X || A) = (X || A')) (hb : (X || B) = (X || B'))
+    (hc : (X || C) = (X || C')) : (((X || A) || B) || C) = (((X || A') || B') || C') := by
+  cases X <;> simp_all
+
+theorem hasId_modList (m : Mods) (k : Bytes) :
+    hasId k (modList m) = (hasId k m.binds || (m.loc && k == sLocal) || (m.pre && k == sPreflight) ||
+      (m.vol && k == sVolatile)) := by
+  rw [modList, hasId_sortMods, convMods, hasId_addKw, hasId_addKw, hasId_addKw,
+    beq_bytes_comm sLocal k, beq_bytes_comm sPreflight k, beq_bytes_comm sVolatile k]
+  apply or3_congr
+  · exact or_absorb _ _ _ _ (fun h => by rw [beq_iff_eq] at h; rw [h])
+  · exact or_absorb _ _ _ _ (fun h => by rw [beq_iff_eq] at h; rw [h])
+  · exact or_absorb _ _ _ _ (fun h => by rw [beq_iff_eq] at h; rw [h])
+
 /-! ## the normal form of the modifiers -/
 
 theorem modList_normMods (m : Mods) : modList (normMods m) = modList m := by
